@@ -98,7 +98,8 @@ func (r *rwRT) ruleScopeAgree(seqForHolds bool, mode string) {
 		if mode != "agree" {
 			break
 		}
-		yielding, rootedOK := 0, 0
+		yielding, rootedOK, normalLowered := 0, 0, 0
+		r.switchBreakDepthBlind = false
 		example := ""
 		for _, p := range runShape(kind, func(string) bool { return true }) {
 			// a path on which some nested list was rewritten into a yield-bearing block
@@ -142,6 +143,7 @@ func (r *rwRT) ruleScopeAgree(seqForHolds bool, mode string) {
 			} else if err := r.switchBreaksRewritten(p.intp, p.o, p.in); root != "" && kind != "ForStmt" && err == errInfeasiblePath {
 				yielding-- // the oracle said "the whole body is yield-free" and "a clause yields" on one path
 			} else if root != "" && kind != "ForStmt" && err == nil {
+				normalLowered++
 				// the other sound lowering: before the clause bodies are lowered, every break that refers to the
 				// switch itself is turned into `return Normal()` (leaving the switch = completing it normally;
 				// the switch is the last statement of its thunk, the combine decision follows it)
@@ -157,6 +159,16 @@ func (r *rwRT) ruleScopeAgree(seqForHolds bool, mode string) {
 		if yielding == 0 {
 			c.und("RW.SCOPEAGREE", "yielding "+kind+" lowering", pos, "no yielding path found for "+kind)
 			continue
+		}
+		if normalLowered > 0 {
+			// `return Normal()` completes the thunk it stands in. That thunk is the rest of the clause when the break
+			// sits at the top level of the clause or inside statements that do not yield (they stay native inside
+			// the thunk); inside a nested statement that itself yields (`case 1: if c { Yield(1); break }; Yield(2)`)
+			// it is only the first half of a Combine, whose second half — the rest of the clause — still runs.
+			// The traversal replaces breaks at any depth and asks nothing about the statements around them.
+			c.check(!r.switchBreakDepthBlind, "RW.SCOPEAGREE", "break nested in a yielding statement of a "+strings.TrimSuffix(kind, "Stmt")+" clause leaves the "+strings.TrimSuffix(kind, "Stmt"), pos,
+				"the replacement of a break distinguishes breaks inside nested statements that yield",
+				"every unlabelled break of the statement is replaced by `return Normal()` whatever it is nested in: inside a nested if / block that yields and is followed by further statements of the clause, Normal only completes that nested statement and the rest of the clause still runs (`case 1: if c { Yield(1); break }; Yield(2)` delivers 1, 2)")
 		}
 		c.check(rootedOK == yielding, "RW.SCOPEAGREE", "break inside a yielding "+strings.TrimSuffix(kind, "Stmt")+" is absorbed by its lowering", pos,
 			fmt.Sprintf("%d yielding lowering paths are all rooted at a Break-absorbing loop combinator, or turn the breaks of the statement into `return Normal()` before its bodies are lowered", yielding),
@@ -548,6 +560,17 @@ func (r *rwRT) switchBreaksRewritten(in *Interp, o Outcome, shp *astInput) error
 			}
 			edits := cursorEdits(co.St, mark)
 			if t.replace {
+				// does the decision look at anything but the node itself (the cursor's parent, a yield-freeness
+				// question about an enclosing statement)?
+				asked := len(co.St.Labels) > len(st.Labels)
+				for _, e := range co.St.Events[mark:] {
+					if e.Kind == "call" && e.Fn != nil && (e.Fn.Name() == "Parent" || inRw(e.Fn) && (e.Fn.Name() == "mustNoYield" || e.Fn.Name() == "containsYield")) {
+						asked = true
+					}
+				}
+				if !asked {
+					r.switchBreakDepthBlind = true
+				}
 				want := nd("ReturnStmt", map[string]Pat{"Results": lst(seqCallPat("Normal"))})
 				if len(edits) != 1 || edits[0].Fn.Name() != "Replace" || matchTmpl(co.St, edits[0].Args[1], want) != nil {
 					return fmt.Errorf("an unlabelled break of the switch is not replaced by `return seq.Normal()`")
